@@ -32,11 +32,12 @@ Proof. exact failed_put_changes_nothing. Qed.
 Print Assumptions C16_failed_put_changes_nothing.
 
 (* ... and that sticky error makes every later Put and Finalize of the storage front-end fail,
-   leaving the state alone. *)
+   leaving file and index alone (Finalize also marks the store closed); the error stays. *)
 Theorem C16_sticky_write_error_refuses :
   forall (hdrdec : bytes -> option (list bytes * N)) kn s op s' out,
     kn <> 0 -> ws_finalized s = true -> (exists c d, op = FPut c d) \/ op = FFinalize ->
-    fstep hdrdec kn s op = (s', out) -> s' = s /\ is_err out = true.
+    fstep hdrdec kn s op = (s', out) ->
+    is_err out = true /\ ws_file s' = ws_file s /\ ws_idx s' = ws_idx s /\ ws_finalized s' = true.
 Proof. exact sticky_error_refuses. Qed.
 Print Assumptions C16_sticky_write_error_refuses.
 
